@@ -142,8 +142,24 @@ def _old_complete(cx, k, v):
     return S.forall(0, k, lambda t: z3.Implies(Tk.a[t] != "", z3.Or(in_chunks(v.head.items, Tk.a[t]), in_list(v.head.ports_i, Tk.a[t]))))
 
 
+def _shape_old(cx, k, v):
+    """the finished chunks of the head of the iteration are still there, unchanged and in place"""
+    c = z3.Int("c!so")
+    return z3.And(v.items.n >= v.head.items.n, z3.ForAll([c], z3.Implies(z3.And(0 <= c, c < v.head.items.n), v.items.a[c] == v.head.items.a[c])))
+
+
+def _shape_new(cx, k, v):
+    """a chunk added in this iteration is the pending chunk of the head, or the single token of this iteration"""
+    c = z3.Int("c!sn")
+    Tk = T(v.ports_range)
+    P0 = v.head.ports_i
+    return z3.ForAll([c], z3.Implies(z3.And(v.head.items.n <= c, c < v.items.n), z3.Or(
+        z3.And(P0.n >= 1, v.items.a[c] == LS.mk(P0.n, P0.a)),
+        z3.And(LS.len(v.items.a[c]) == 1, LS.arr(v.items.a[c])[0] == Tk.a[k], Tk.a[k] != ""))))
+
+
 # clause numbers of _inv: 0,1 lengths; 2 non-empty; 3 chunks sound; 4 pending sound; 5 complete; 6 ranges alone; 7 pending digits; 8 limit; 9 pending limit
-for _h, _cl in ((_mono, (3, 4)), (_cur, (3, 4)), (_cur_seen, (3, 4)), (_old_sound, (3, 4)),
+for _h, _cl in ((_shape_old, (2, 3, 6, 8)), (_shape_new, (2, 3, 6, 8)), (_mono, (3, 4)), (_cur, (3, 4)), (_cur_seen, (3, 4)), (_old_sound, (3, 4)),
                 (_old_complete, (5,)), (_kept_chunks, (5,)), (_kept_pending, (5,)), (_cur_placed, (5,))):
     _h.for_clauses = _cl
-sp.loop(0, _inv, hints=[_mono, _cur, _cur_seen, _old_sound, _old_complete, _kept_chunks, _kept_pending, _cur_placed])
+sp.loop(0, _inv, hints=[_shape_old, _shape_new, _mono, _cur, _cur_seen, _old_sound, _old_complete, _kept_chunks, _kept_pending, _cur_placed])
